@@ -17,8 +17,8 @@ SIM_NOTE = ("Observes run_simulator through recording subclasses of Executor/Sch
 CHECKS = {
     "C01": dict(
         technique="exhaustive enumeration of all DAGs on <= 6 nodes + property-based testing (Hypothesis) of simulations with a log/snapshot monitor",
-        text="DAG iteration decided exhaustively for every DAG on 1..6 nodes (two construction styles, repeated iteration) and by Hypothesis up to "
-             "40 nodes; the start-after-parents clause by thousands of generated simulations under all shipped schedulers and a tape-driven custom "
+        text="DAG iteration decided exhaustively for every DAG on 1..6 nodes (two construction styles; repeated, nested, lock-step and "
+             "during-construction iteration) and by Hypothesis up to 40 nodes; the start-after-parents clause by thousands of generated simulations under all shipped schedulers and a tape-driven custom "
              "scheduler issuing inadmissible decisions, judged on the ordered log of state changes and on snapshots at both phase boundaries.",
         note=SIM_NOTE, ref="6 C01"),
     "C02": dict(
@@ -30,7 +30,8 @@ CHECKS = {
     "C03": dict(
         technique="model-based property testing (Hypothesis command tapes): real Executor vs independent ledger model in lock-step",
         text="Generated command histories (batches at/below/above free resources, legal and illegal suspensions, bad commands) against 1-4 real pools; "
-             "conservation checked from the implementation's own figures after every tick and free figures compared with the model.",
+             "conservation checked from the implementation's own figures after every tick and free figures compared with the model "
+             "(pools from 0.5 GB to 4e9 GB, tolerance 1e-12 relative); the conservation monitor also runs over generated full simulations.",
         note=POOL_NOTE, ref="6 C03"),
     "C04": dict(
         technique="model-based property testing (Hypothesis command tapes): per-tick memory vs independent demand model",
@@ -41,7 +42,8 @@ CHECKS = {
         technique="property-based differential testing (Hypothesis): real container vs exact-rational trace predictor",
         text="Generated single-container cases (1-6 operators x 1-3 segments, seven laws, fixed/growing memory, tick rates "
              "1..100000, allocations around every demand step) run in a real ResourcePool; every tick's memory, operator "
-             "states and result must be explained by an independent exact-rational model with boundary sets.",
+             "states and result must be explained by an independent exact-rational model with boundary sets; an OOM-killed "
+             "container's unfinished operators are re-run in a second container (other CPU count / allocation) and matched again.",
         note="Trusts the transcription of the four undocumented scaling laws; accepts either side within 1e-9 relative of a "
              "tick/limit boundary as the property itself allows.",
         ref="6 C05"),
